@@ -130,6 +130,25 @@ func LiteralMatrix(f func(s string)) int {
 			}
 		}
 	}
+	// runs of backslashes followed by runs of the delimiter's quote character: where a literal ends depends on the
+	// parity of the run, in raw literals as well, and in triple-quoted ones on how many quotes follow
+	for _, p := range litPrefixes {
+		for _, q := range litQuotes {
+			qc := q[:1]
+			for k := 0; k <= 5; k++ {
+				for m := 0; m <= 4; m++ {
+					for _, pre := range []string{"", "a"} {
+						for _, tail := range []string{"", "a"} {
+							full := p + q + pre + strings.Repeat("\\", k) + strings.Repeat(qc, m) + tail + q
+							emit(full)
+							emit(full + qc)
+							emit(full + "; " + p + q + "x" + q)
+						}
+					}
+				}
+			}
+		}
+	}
 	// quoted identifiers
 	for _, e := range litEscapes {
 		for pos := 0; pos < 3; pos++ {
